@@ -1610,7 +1610,11 @@ class Context:
             )
         if seconds_range is not None:
             t0, _ = self.estimate_run_start_and_end(run_id, targets)
-            time_range = (t0 + int(1e9 * seconds_range[0]), t0 + int(1e9 * seconds_range[1]))
+            # Round to the nearest ns: 1e9 * 1.001 is 1000999999.9999999 in floats
+            time_range = (
+                t0 + int(round(1e9 * seconds_range[0])),
+                t0 + int(round(1e9 * seconds_range[1])),
+            )
         if time_within is not None:
             time_range = (time_within["time"], strax.endtime(time_within))
         if time_range is not None:
